@@ -3,11 +3,11 @@
 # case: ''; solver: z3
 # verifier output (counter-model):
 #   /0 = [(2, 1.4142135623?) -> 1.4142135623?, else -> 0]
-#   a0 = 1
+#   a0 = -1
 #   b0 = -1
 #   chsh_c = 1.4142135623?
 #   chsh_c!1 = 1.4142135623?
-#   chsh_s = 1
+#   chsh_s = -1
 #   chsh_s!1 = -1
 #   cs_c = -1
 #   cs_c!1 = -1
@@ -16,9 +16,9 @@
 #   cs_s!1 = 0
 #   cs_s!2 = 0
 #   dagger_a = True
-#   dagger_b = False
+#   dagger_b = True
 #   s1 = 0
-I = {'cls': 'Sgate', 'npar': 2, 'ns': 1, 's1': 0.0, 'a0': 1.0, 'b0': -1.0, 'dagger_a': True, 'dagger_b': False}
+I = {'cls': 'Sgate', 'npar': 2, 'ns': 1, 's1': 0.0, 'a0': -1.0, 'b0': -1.0, 'dagger_a': True, 'dagger_b': True}
 OBLIGATION = 'Gate.merge/Sgate/None=>identity.S[0,0]'
 
 import sys
